@@ -206,7 +206,8 @@ def mkbin(op, a, b):
     if op in ("Gt", "Ge"):
         op = {"Gt": "Lt", "Ge": "Le"}[op]
         a, b = b, a
-    if op in COMMUTATIVE and repr(a) > repr(b):
+    base = op[:-len("WithOverflow")] if op.endswith("WithOverflow") else op
+    if base in COMMUTATIVE and repr(a) > repr(b):
         a, b = b, a
     return ("bin", op, a, b)
 
